@@ -496,6 +496,22 @@ func contextClose(t *tape.Tape, cfg sim.Config) (res sim.Result) {
 		res.Fail("not-closed", "the spinning call returned without error")
 		return
 	}
+	// several goroutines use the closed module at the same moment (the release deferred to the first later
+	// use must happen once)
+	if t.Chance(1, 2) {
+		var wg gosync.WaitGroup
+		start := make(chan struct{})
+		for g := 0; g < 4; g++ {
+			wg.Add(1)
+			go func() {
+				defer wg.Done()
+				<-start
+				mod.ExportedFunction("five").Call(ctx)
+			}()
+		}
+		close(start)
+		wg.Wait()
+	}
 	// later use of the closed module: every call must fail, nothing may re-notify
 	for i := t.Choose(4); i > 0; i-- {
 		switch t.Choose(3) {
